@@ -28,7 +28,10 @@ func (e *Environment) AddAttributes(attributes map[string]*types.Item) error {
 			return err
 		}
 
-		e.Set(name, obj)
+		// attribute and placeholder names are taken literally: an attribute that happens to be named like an alias of
+		// the request ("#s") is not the attribute the alias stands for
+		e.store[name] = obj
+		delete(e.removed, name)
 	}
 
 	return nil
@@ -166,7 +169,7 @@ func (e *Environment) Compact() {
 }
 
 // Apply assigns the environment field to the item
-func (e *Environment) Apply(item map[string]*types.Item, aliases map[string]string, exclude map[string]bool) {
+func (e *Environment) Apply(item map[string]*types.Item, _ map[string]string, exclude map[string]bool) {
 	// an attribute removed from the environment is removed from the item
 	for k := range e.removed {
 		delete(item, k)
@@ -177,10 +180,7 @@ func (e *Environment) Apply(item map[string]*types.Item, aliases map[string]stri
 			continue
 		}
 
-		if alias, ok := aliases[k]; ok {
-			k = alias
-		}
-
+		// the store is keyed by attribute names: Set, Remove and Get resolve aliases before they touch it
 		vItem := v.ToDynamoDB()
 		item[k] = &vItem
 	}
